@@ -39,6 +39,8 @@ def gen_world(rng, i, tier):
     w["req_gid"] = rng.pick([0, 4141])
     w["setter_history"] = rng.pick(["plain", "set-reset-set", "other-first", "allow-symlinks-explicit", "forbid-then-allow", "allow-first"])
     w["attr_seed"] = rng.getrandbits(32)
+    # additionally a permission-mask requirement that every file and directory of the tree satisfies
+    w["perms"] = rng.pick([None, None, None, [0o400, 0o500], [0o444, 0o111]])
     w["init"] = rng.pick(["null", "sentinel"])
     # /dev/null links inside the tree are symbolic links and would offend the no-symlink rule by themselves:
     # keep them only when that rule is not active so that the enumeration stays single-fault
@@ -107,6 +109,8 @@ def security_ops(world):
             o.append({"op": "security", "what": "group", "v": world["req_gid"]})
         if "symlink" in rules:
             o.append({"op": "security", "what": "symlinks", "v": False})
+        if world.get("perms") and rules:
+            o.insert(len(o) // 2, {"op": "security", "what": "perms", "file": world["perms"][0], "dir": world["perms"][1]})
         return o
     h = world["setter_history"]
     allow = {"op": "security", "what": "symlinks", "v": True}
@@ -219,6 +223,8 @@ def check(world, plans, results):
     v.probe("executions", len(results))
     if world["setter_history"] != "plain":
         v.probe("setter_history_" + world["setter_history"])
+    if world.get("perms") and world["rules"]:
+        v.probe("satisfied_permission_rule_also_in_force")
     return v
 
 
